@@ -168,3 +168,74 @@ def run_task(task, repo, use_cvc5=True):
 
 def result_to_dict(r):
     return {k: v for k, v in r.__dict__.items()}
+
+
+class FragmentTask(Task):
+    """Executes a mechanically extracted FRAGMENT of a function: the consecutive statements of `qual` (at nesting
+    level `path`) from the first one for which first(stmt) holds to the last one for which last(stmt) holds.  What is
+    dropped is everything else of the function; the fragment's inputs are the frame given by setup()['frame'].
+    post() receives the frame's variables as out.value (dict)."""
+    first = None     # predicate(ast stmt) -> bool
+    last = None
+
+    @staticmethod
+    def assigns(name):
+        import ast
+
+        def pred(s):
+            tg = []
+            if isinstance(s, ast.Assign):
+                tg = s.targets
+            elif isinstance(s, (ast.AugAssign, ast.AnnAssign)):
+                tg = [s.target]
+            for t in tg:
+                for n in ast.walk(t):
+                    if isinstance(n, ast.Name) and n.id == name:
+                        return True
+                    if isinstance(n, ast.Attribute) and n.attr == name:
+                        return True
+            return False
+        return pred
+
+    def select(self, fdef):
+        import ast
+
+        def blocks(node):
+            for fld in ("body", "orelse", "finalbody"):
+                b = getattr(node, fld, None)
+                if isinstance(b, list) and b and isinstance(b[0], ast.stmt):
+                    yield b
+                    for s in b:
+                        if not isinstance(s, (ast.FunctionDef, ast.ClassDef)):
+                            yield from blocks(s)
+            for h in getattr(node, "handlers", []) or []:
+                yield h.body
+                for s in h.body:
+                    yield from blocks(s)
+            for it in getattr(node, "items", []) or []:
+                pass
+        for b in blocks(fdef):
+            idx = [i for i, s in enumerate(b) if self.first(s)]
+            if idx:
+                i0 = idx[0]
+                i1s = [i for i, s in enumerate(b) if i >= i0 and self.last(s)]
+                if i1s:
+                    return b[i0:i1s[-1] + 1]
+        return None
+
+    def call(self, ex, inp):
+        from .exec import Frame, assigned_names, loop_nodes
+        fdef, modqual, clsqual = ex.repo.func(self.qual)
+        stmts = self.select(fdef)
+        if not stmts:
+            raise Unsupported(f"fragment of {self.qual} not found (the function was restructured)")
+        qual = f"{clsqual}.{fdef.name}" if clsqual else f"{modqual}.{fdef.name}"
+        fr = Frame(modqual, qual, clsqual, local_names=assigned_names(fdef))
+        fr.loops = {id(n): i for i, n in enumerate(loop_nodes(fdef))}
+        fr.vars.update(inp.get("frame", {}))
+        ex.call_depth += 1
+        try:
+            ex.exec_block(stmts, fr)
+        finally:
+            ex.call_depth -= 1
+        return dict(fr.vars)
